@@ -15,7 +15,7 @@ const fxScale = 1024.0
 const fxLimit = 32.0 // |entries| above this are not logged in fixed point (TLC integers are 32 bit)
 
 var patNames = []string{"lower", "unitlower", "diag", "posdiag", "nonnegdiag", "upper", "upperbidiag", "tridiag",
-	"hessenberg", "quasiupper", "orth", "orthcols", "any", "none"}
+	"hessenberg", "quasiupper", "orth", "orthcols", "any", "free", "none"}
 
 func noPat() map[string]bool {
 	p := map[string]bool{}
@@ -201,6 +201,7 @@ func patterns(f fm, ztol, otol float64) map[string]bool {
 		return p
 	}
 	p["none"] = false
+	p["free"] = true
 	fin := finite(f)
 	p["any"] = fin
 	if !fin {
